@@ -10,6 +10,9 @@ CLAIMED = {
  'C20': dict(engine='symx', design='4/C20', technique='symbolic execution of the real geometry classes on z3 Int site coordinates/shifts/labels (unbounded), lattice dims and boundary enumerated; LIA unsat queries per path; pattern labels fork on equality (one path per set partition)',
    text='For every SquareLattice dims<=5x5 x boundary (complete for the stated bound), Checkerboard, both Triangular variants: nn_site/None-iff-leaves-open-direction/mutual inverse, site2index oracle + invariance under exactly the lattice periods, coverage and uniqueness of sites()/bonds(), nn_bond_dirn, and f_ordered total-order axioms are decided by z3 for UNBOUNDED integer sites and shifts. RectangularUnitcell accept/reject is decided for fully symbolic labels (<=4 values) on shapes up to 2x3 (thorough 3x3, 2x4) - one path per label-equality pattern - plus concrete 4x4 families. Lattice container get/set/patch explored over a symbolic site window.',
    note='Trusted: z3 LIA. Open-boundary sites assumed on the lattice. Cylinder seam bonds are exempt from f-ordering (cannot be both lattice- and f-ordered). Outside: 4x4 patterns with symbolic labels; dims beyond the bounds.'),
+ 'C13': dict(engine='symx', design='4/C13', technique='forking symbolic execution of the real truncation_mask on a spectrum of solver variables (every comparison inside argsort/max/>tol*max is a z3-decided branch); per-path limit/maximality/completeness obligations as unsat queries; *_with_truncation through LAPACK contract stubs',
+   text='All orderings, ties and zeros of a k<=4 (thorough 5) value spectrum over all sector compositions are explored as paths of the real code; tol/tol_block are symbolic in (0,1) (incl. per-sector dicts), D_total/D_block enumerated incl. dict and inf. On each path z3 proves: limits respected, kept > tol*max, no discarded value exceeds a kept one competing under the same limit, an eligible value is dropped only when a cap binds, non-binding limits drop only exact zeros. svd/eigh_with_truncation: same indices removed from U,S,V and a - kept == discarded element-wise (contract stubs).',
+   note='Trusted: z3 (QF_NRA for tol*s products), LAPACK contracts for part (b). Branch feasibility uses the path condition plus linear assumptions only (over-approximation: sound). Outside: truncate_multiplets heuristics, mask_f, larger spectra.'),
 }
 NA = {
  'C09': 'DMRG: outcome of iterated floating-point Krylov eigen-solves and LAPACK sweeps; a contract stub for eigs would assume the conclusion, chained LAPACK contracts need non-linear ideal reasoning z3/cvc5 do not finish (DESIGN 5)',
